@@ -957,8 +957,45 @@ func ModifyRegister(register *object.Register, in ast.Node) (ast.Node, bool) {
 	case *ast.FunctionLiteral:
 		// skip lambda/functions in functions.
 		return nil, false
+	case *ast.Builtin:
+		if in.Type() == token.QUOTE {
+			// the quoted tree would keep the register node itself (and print as R[n,name]).
+			for _, p := range in.Parameters {
+				if usesRegister(p, register) {
+					return nil, false
+				}
+			}
+		}
+	case *ast.ForExpression:
+		// for name = <list, map or string> binds name to non integers: only a literal integer (range) is known to be fine.
+		if cond, ok := in.Condition.(*ast.InfixExpression); ok && cond.Left == ast.Node(register) && !integerBounds(cond.Right) {
+			return nil, false
+		}
 	}
 	return in, true
+}
+
+// usesRegister tells if the (already rewritten) tree mentions the register.
+func usesRegister(n ast.Node, register *object.Register) bool {
+	found := false
+	ast.ModifyNoOk(n, func(in ast.Node) ast.Node {
+		if in == ast.Node(register) {
+			found = true
+		}
+		return in
+	})
+	return found
+}
+
+// integerBounds tells if the right hand side of a for x = ... is an integer literal or a range of 2 of them.
+func integerBounds(n ast.Node) bool {
+	switch v := n.(type) {
+	case *ast.IntegerLiteral:
+		return true
+	case *ast.InfixExpression:
+		return v.Type() == token.COLON && integerBounds(v.Left) && integerBounds(v.Right)
+	}
+	return false
 }
 
 func setupRegister(env *object.Environment, name string, value int64, body ast.Node) (object.Register, ast.Node, bool) {
